@@ -373,42 +373,7 @@ func runC17(r *Run) {
 		return
 	}
 	ff := r.E.Facts(ap, core.Ctx{})
-	doc := ap.Params[1]
-	// --- pure
-	ok, whyNot := r.readOnlyParam(ap, doc, 0, map[*ssa.Parameter]bool{})
-	r.R.Check(ok, P+".pure.param", "E9: the document parameter of ApplyPatches is never mutated, stored or returned — transitively through every callee it is passed to", core.FuncName(ap), r.where(ap),
-		"if any apply step (or the copy) touches the caller's document, a failed or successful patch list changes the previous state held by the resolver", "only read (marshalled by the deep copy)", whyNot)
-	// the only use of doc is deepCopy; applyPatch receives deepCopy's result or its own previous result
-	uses := 0
-	if refs := doc.Referrers(); refs != nil {
-		for _, rf := range *refs {
-			if _, isDbg := rf.(*ssa.DebugRef); !isDbg {
-				uses++
-			}
-		}
-	}
-	okFlow := true
-	var det []string
-	for _, c := range r.callsIn(ap, "applyPatch") {
-		for _, l := range phiLeaves(c.Common().Args[0]) {
-			t := ff.TB.Of(l)
-			if !core.MatchTerm("deepCopy($1)", t, core.Bind{}) && !core.MatchTerm("applyPatch(...)", t, core.Bind{}) {
-				okFlow = false
-				det = append(det, "applyPatch receives "+t.String())
-			}
-		}
-	}
-	okRet := true
-	for _, ri := range ff.Returns() {
-		for _, l := range phiLeaves(core.RetOp(ri.Ret, 0)) {
-			if l == ssa.Value(doc) {
-				okRet = false
-				det = append(det, "the parameter itself is returned")
-			}
-		}
-	}
-	r.R.Check(okFlow && okRet && uses == 1, P+".pure.flow", "E9/E13: apply steps operate on deepCopy(doc) or on the previous step's result only; the parameter is used exactly once (to be copied)", core.FuncName(ap), r.where(ap),
-		"patches applied to the parameter itself modify the input document", "deepCopy(doc) → applyPatch* → result", strings.Join(det, "; ")+fmt.Sprintf(" (uses of the parameter: %d)", uses))
+	r.checkComposerPure(P)
 	if dc := r.fn(P, pkgComposer, "deepCopy"); dc != nil {
 		r.requireSucc(P+".pure.copy", "the working copy must be a fresh value decoded from the serialized input", dc, core.Ctx{}, "",
 			"ok(json.Marshal($0))", "ok(json.Unmarshal(json.Marshal($0), _))")
@@ -1416,4 +1381,51 @@ func (r *Run) checkKeyTypePurpose(P string) {
 		}
 		r.R.Check(okCaller, id+".caller", "E2: validatePublicKeys rejects the key on the false edge of validateKeyTypePurpose", core.FuncName(vp), r.where(vp), why, "false → error", "the false edge of the predicate does not lead to an error only")
 	}
+}
+
+// checkComposerPure: ApplyPatches never touches the document it is given
+// (shared by C17 and C03: "an update whose patches fail leaves the document
+// unchanged" rests on it).
+func (r *Run) checkComposerPure(P string) {
+	ap := r.fn(P, pkgComposer, "DocumentComposer.ApplyPatches")
+	if ap == nil {
+		return
+	}
+	ff := r.E.Facts(ap, core.Ctx{})
+	doc := ap.Params[1]
+	// --- pure
+	ok, whyNot := r.readOnlyParam(ap, doc, 0, map[*ssa.Parameter]bool{})
+	r.R.Check(ok, P+".pure.param", "E9: the document parameter of ApplyPatches is never mutated, stored or returned — transitively through every callee it is passed to", core.FuncName(ap), r.where(ap),
+		"if any apply step (or the copy) touches the caller's document, a failed or successful patch list changes the previous state held by the resolver", "only read (marshalled by the deep copy)", whyNot)
+	// the only use of doc is deepCopy; applyPatch receives deepCopy's result or its own previous result
+	uses := 0
+	if refs := doc.Referrers(); refs != nil {
+		for _, rf := range *refs {
+			if _, isDbg := rf.(*ssa.DebugRef); !isDbg {
+				uses++
+			}
+		}
+	}
+	okFlow := true
+	var det []string
+	for _, c := range r.callsIn(ap, "applyPatch") {
+		for _, l := range phiLeaves(c.Common().Args[0]) {
+			t := ff.TB.Of(l)
+			if !core.MatchTerm("deepCopy($1)", t, core.Bind{}) && !core.MatchTerm("applyPatch(...)", t, core.Bind{}) {
+				okFlow = false
+				det = append(det, "applyPatch receives "+t.String())
+			}
+		}
+	}
+	okRet := true
+	for _, ri := range ff.Returns() {
+		for _, l := range phiLeaves(core.RetOp(ri.Ret, 0)) {
+			if l == ssa.Value(doc) {
+				okRet = false
+				det = append(det, "the parameter itself is returned")
+			}
+		}
+	}
+	r.R.Check(okFlow && okRet && uses == 1, P+".pure.flow", "E9/E13: apply steps operate on deepCopy(doc) or on the previous step's result only; the parameter is used exactly once (to be copied)", core.FuncName(ap), r.where(ap),
+		"patches applied to the parameter itself modify the input document", "deepCopy(doc) → applyPatch* → result", strings.Join(det, "; ")+fmt.Sprintf(" (uses of the parameter: %d)", uses))
 }
